@@ -485,6 +485,23 @@ func runC09(c *Ctx) {
 				okTrue = true
 			}
 		}
+		if bo := cmp.(*ssa.BinOp); len(ir.EqBranches(bo)) == 0 {
+			// the comparison is not branched on where it is made but carried
+			// to the test by a result variable (a helper `return a == b`,
+			// inlined): explore from behind it with its outcome known
+			nTrue, nOther := 0, 0
+			ir.WalkFacts(cmp.Block(), ir.IndexIn(cmp)+1, nil, nil, map[ssa.Value]bool{bo: bo.Op == token.EQL}, func(in ssa.Instruction) bool {
+				if r, ok := in.(*ssa.Return); ok {
+					if k, isC := ir.ConstBool(ir.RetVal(r, 0)); isC && k {
+						nTrue++
+					} else {
+						nOther++
+					}
+				}
+				return true
+			})
+			okTrue = nTrue >= 1 && nOther == 0
+		}
 		c.verdict(okTrue, c.nm(fn)+" | an outpoint match returns true", c.at(cmp), "return true on equality", "an outpoint match no longer returns true")
 	})
 
